@@ -233,6 +233,95 @@ Section LinesTop.
   Qed.
 End LinesTop.
 
+(* ------------------------------------------------------------------ the amounts the loop consumes, from the real bytes *)
+Section Amounts.
+  Variable L : Type.
+  Variable llen : L -> Z.
+  Variable PS : Type.
+  Variable init_ps : PS.
+  Variable recog : PS -> L -> PS + Z.
+  Variable bump : PS -> PS.
+  Variable lineno : PS -> Z.
+  Variable bytes_of : L -> list Z.
+  Hypothesis bytes_ok : forall l, exists body, bytes_of l = body ++ [10] /\ no_nl body /\ zlength (bytes_of l) = llen l.
+
+  Local Notation cat := (cat L bytes_of).
+
+  (* recovery: `match input.iter().position(..) { Some(i) => i + 1, None => input.len() }` on the bytes of data()
+     parse:    parse_more returns the length of data() up to its last newline, and the callback gets exactly those bytes *)
+  Definition amounts (x : bst L PS) : Prop :=
+    let s := x_s x in
+    let d := bdata (x_b x) in
+    (match position_nl d 0 with Some i => i + 1 | None => zlength d end
+     = total (recovery L llen PS bump s) - total s) /\
+    (off s = 0 -> forall p' r' c' lg',
+       pm L llen PS recog lineno (avail (buf s)) (ps s) (rest s) 0 (log s) = inl (p', r', c', lg') ->
+       c' = zlength (trim_nl d) /\ zfirstn c' d = trim_nl d).
+
+  Lemma content_amounts : forall tl x, bwf (x_b x) -> idx (x_b x) = buf (x_s x) ->
+    content L llen PS bytes_of tl x -> amounts x.
+  Proof.
+    intros tl x Wb Hi [_ [C2 C3]]. cbv zeta in *. unfold amounts. cbv zeta.
+    pose proof (bdata_length _ Wb) as HL. rewrite <- avail_idx, Hi in HL.
+    split.
+    - rewrite C2. unfold Model.recovery, Model.first_nl.
+      destruct (rest (x_s x)) as [|l t] eqn:Er.
+      + unfold discard_all. cbn [total]. rewrite HL. lia.
+      + cbv zeta. destruct (llen l - off (x_s x) <=? avail (buf (x_s x))).
+        * cbn [total]. lia.
+        * unfold discard_all. cbn [total]. rewrite HL. lia.
+    - intros Ho p' r' c' lg' P. specialize (C3 Ho).
+      assert (Hav : 0 <= avail (buf (x_s x))) by (rewrite <- HL; apply zlength_nonneg).
+      apply (pm_inl L llen PS recog bump lineno (llen_pos' L llen bytes_of bytes_ok)) in P; [|exact Hav].
+      destruct P as [tk [H1 [H2 [H3 [_ [_ [_ H7]]]]]]].
+      rewrite H1 in C3. rewrite (fit_unique L llen bytes_of bytes_ok tk r' _ H3 H7) in C3.
+      assert (Ec : c' = zlength (trim_nl (bdata (x_b x)))).
+      { rewrite C3, (cat_length L llen bytes_of bytes_ok). lia. }
+      split; [exact Ec|]. rewrite Ec.
+      destruct (trim_prefix (bdata (x_b x))) as [r Hr]. rewrite Hr at 2.
+      unfold zfirstn, zlength. rewrite Nat2Z.id. rewrite firstn_app, Nat.sub_diag, firstn_all. cbn [firstn].
+      apply app_nil_r.
+  Qed.
+End Amounts.
+
+Lemma amounts_from_bytes_thm :
+  forall (L : Type) (llen : L -> Z) (PS : Type) (init_ps : PS)
+         (recog : PS -> L -> PS + Z) (bump : PS -> PS) (lineno : PS -> Z) (bytes_of : L -> list Z),
+    (forall l, exists body, bytes_of l = body ++ [10] /\ Forall (fun c => c <> 10) body /\ zlength (bytes_of l) = llen l) ->
+    forall (lines : list L) (tl : list Z) (sch : list Z) (p : positive),
+    Forall (fun c => c <> 10) tl ->
+    let inp := flat_map bytes_of lines ++ tl in
+    let s0 := init_st L llen PS init_ps lines (zlength tl) sch in
+    let x0 := binit L PS s0 inp in
+    let good (x : bst L PS) (s : st L PS) :=
+      x_s x = s /\
+      (match position_nl (bdata (x_b x)) 0 with Some i => i + 1 | None => zlength (bdata (x_b x)) end
+       = total (recovery L llen PS bump s) - total s) /\
+      (off s = 0 -> forall p' r' c' lg',
+         pm L llen PS recog lineno (avail (buf s)) (ps s) (rest s) 0 (log s) = inl (p', r', c', lg') ->
+         c' = zlength (trim_nl (bdata (x_b x))) /\ zfirstn c' (bdata (x_b x)) = trim_nl (bdata (x_b x))) in
+    match iter_pos L llen PS recog bump lineno p s0 with
+    | Next s => exists x, biter L llen PS recog bump lineno (Pos.to_nat p) x0 = BNext x /\ good x s
+    | Done r s => exists x, biter L llen PS recog bump lineno (Pos.to_nat p) x0 = BDone r x /\ good x s
+    | StPanic _ => False
+    end.
+Proof.
+  intros L llen PS init_ps recog bump lineno bytes_of Hb lines tl sch p Htl inp s0 x0 good.
+  assert (Hlen : zlength inp = input_len L llen lines (zlength tl)).
+  { unfold inp, Model.input_len. fold (cat L bytes_of lines). rewrite zlength_app, (cat_length L llen bytes_of Hb).
+    pose proof (zlength_nonneg _ tl). lia. }
+  pose proof (reach_inv L llen PS init_ps recog bump lineno (llen_pos' L llen bytes_of Hb)
+                        lines (zlength tl) sch inp p Hlen) as R.
+  cbv zeta in R. fold s0 in R. fold x0 in R.
+  destruct (iter_pos L llen PS recog bump lineno p s0) as [s|r s|t]; [| |exact R].
+  - destruct R as [x [A [B [C D]]]]. exists x. split; [exact A|]. split; [exact B|]. subst s.
+    apply (content_amounts L llen PS init_ps recog bump lineno bytes_of Hb tl x (bi_wf _ _ _ _ C) (bi_idx _ _ _ _ C)).
+    apply (binv_content L llen PS init_ps recog bump lineno bytes_of Hb lines tl); assumption.
+  - destruct R as [x [A [B [C D]]]]. exists x. split; [exact A|]. split; [exact B|]. subst s.
+    apply (content_amounts L llen PS init_ps recog bump lineno bytes_of Hb tl x (bi_wf _ _ _ _ C) (bi_idx _ _ _ _ C)).
+    apply (binv_content L llen PS init_ps recog bump lineno bytes_of Hb lines tl); assumption.
+Qed.
+
 (* ------------------------------------------------------------------ the statements of C09/Properties.v *)
 Lemma window_is_input_thm :
   forall (L : Type) (llen : L -> Z) (PS : Type) (init_ps : PS)
